@@ -44,9 +44,17 @@ def main():
             print(d0.stdout[-1500:], d0.stderr[-1500:]); ok = False
         ap_ = run(["git", "-C", wt, "apply", os.path.abspath(os.path.join(a.seed_dir, "patch.diff"))])
         if ap_.returncode != 0:
+            # the patch was written against an earlier /repo HEAD (before a later fix: commit touched the same file): 3-way merge it
+            ap_ = run(["git", "-C", wt, "apply", "--3way", os.path.abspath(os.path.join(a.seed_dir, "patch.diff"))])
+            if ap_.returncode == 0:
+                run(["git", "-C", wt, "reset", "-q"])
+                d = run(["git", "-C", wt, "diff", "--", "flowpaths"]).stdout
+                open(os.path.join(a.seed_dir, "patch.diff"), "w").write(d)     # keep the rebased patch (applies to the current HEAD)
+                meta["ran"].append("patch rebased onto the current /repo HEAD with git apply --3way")
+        if ap_.returncode != 0:
             print("patch does not apply:", ap_.stderr); ok = False
         else:
-            files = [l[6:] for l in open(os.path.join(a.seed_dir, "patch.diff")) if l.startswith("+++ b/")]
+            files = [l[6:].strip() for l in open(os.path.join(a.seed_dir, "patch.diff")) if l.startswith("+++ b/")]
             meta["files"] = files
             for f in files:
                 c = run([PY, "-m", "py_compile", os.path.join(wt, f)])
